@@ -12,7 +12,7 @@ LEVEL = "other"
 MN = "mackay_neal::MacKayNeal::"
 SM = "sparse::SparseMatrix::"
 NONDET = re.compile(r"rand::(rng|thread_rng|random|random_range|random_bool).*|rand::rngs::.*|.*::from_os_rng|.*::from_entropy|.*::try_from_os_rng|"
-                    r"std::time::(SystemTime|Instant).*::now|getrandom::.*|std::collections::hash::map::RandomState::new|std::collections::HashMap::<K, V>::new|std::collections::HashSet::<T>::new")
+                    r"std::time::(SystemTime|Instant).*::now|getrandom::.*|std::collections::hash::map::RandomState::new|std::hash::RandomState::new|<std::hash::RandomState as std::default::Default>::default|<std::collections::Hash(Map|Set)<.*> as std::default::Default>::default|std::collections::hash_map::RandomState::new|std::hash::random::RandomState::new|std::collections::HashMap::<K, V>::new|std::collections::HashSet::<T>::new")
 RX = r"sparse::.*|mackay_neal::.*|peg::.*|util::.*|rand::.*|rand_chacha::.*|std::vec::Vec::<T, A>::(truncate|pop|sort_unstable_by|drain|clear|append)|rayon::.*"
 
 
@@ -68,6 +68,21 @@ def resolve_place(mir, l, depth=8):
 
 def by_name(calls, name):
     return [s for s in calls if s["detail"].rsplit("::", 1)[-1] == name]
+
+
+def selftest(C):
+    """Canary for Q1 (expected count on the analysed tree: zero): the scan must see every ambient source of the positive example."""
+    b = C.body("zero::ambient")
+    hits = set()
+    for fn, inst, t, i in mir_callees(b):
+        for cand in (fn, inst):
+            if cand and NONDET.fullmatch(cand):
+                hits.add(cand)
+    need = ("Instant::now", "SystemTime::now", "HashMap::<K, V>::new", "RandomState::new", "HashSet::<T>::new", "HashMap<K, V, S> as std::default::Default",
+            "HashSet<T, S> as std::default::Default", "RandomState as std::default::Default")
+    missing = [n for n in need if not any(n in h for h in hits)]
+    if missing:
+        raise AnalysisError("C16 canary: the nondeterminism scan does not recognise %s (found %s)" % (missing, sorted(hits)))
 
 
 def run(ck, F, tier):
